@@ -89,8 +89,18 @@ CallConforms ==
     LET c == Call(tid)
         n == Len(Recs[tid].reqs)
     IN CASE c.api = "get_characteristics" ->
-                /\ n = 1
-                /\ ReadTargetOk(ApiTarget(c, Obs(tid, 1)), IdSet(c.ids), [i \in 1..Len(Obs(tid, 1).order) |->
+                \* one GET or several (the statement does not forbid splitting a long read): every target is
+                \* ReadTarget of a non-empty id sequence (FormatConforms compares the bytes with exactly that
+                \* string, so an empty element / stray comma is rejected there) and together the requests
+                \* enumerate exactly the requested ids, none twice
+                /\ n >= 1
+                /\ \A i \in 1..n : /\ Len(Obs(tid, i).order) >= 1
+                                    /\ Obs(tid, i).raw = CanonHead(ExpectedReq(tid, i), FALSE)
+                /\ LET all == FlatSeq([i \in 1..n |-> [j \in 1..Len(Obs(tid, i).order) |->
+                                          <<Obs(tid, i).order[j][1], Obs(tid, i).order[j][2]>>]])
+                   IN /\ RangeOf(all) = IdSet(c.ids)
+                      /\ Len(all) = Cardinality(IdSet(c.ids))
+                /\ n = 1 => ReadTargetOk(ApiTarget(c, Obs(tid, 1)), IdSet(c.ids), [i \in 1..Len(Obs(tid, 1).order) |->
                                     <<Obs(tid, 1).order[i][1], Obs(tid, 1).order[i][2]>>])
          [] c.api = "put_characteristics" ->
                 /\ n = 1
